@@ -35,16 +35,18 @@ QuickTables == { Tab(<<<<VInt(2), U>>, <<VInt(1), V>>, <<VInt(2), V>>>>),       
                  Tab(<<<<VInt(1), U>>, <<VInt(1), V>>>>),                          \* one key class
                  Tab(<<>>) }
 WideTables == QuickTables \cup
-               { Tab(<<<<VNaN(1), U>>, <<VInt(1), VInt(1)>>, <<VNaN(2), VInt(1)>>, <<VInt(1), U>>>>),   \* two NaN objects: one key; an int label
+               { Tab(<<<<VNaN(1), U>>, <<VInt(1), V>>, <<VNaN(2), V>>, <<VInt(1), U>>>>),             \* two NaN objects: one key
                  Tab(<<<<VStr("ab"), W>>, <<VInt(2), U>>, <<None, W>>, <<VStr("ab"), U>>>>),             \* mixed-type key column
                  Tab(<<<<VInt(3), U>>, <<VInt(2), V>>, <<VInt(1), W>>, <<VInt(2), U>>>>),
                  Tab(<<<<VInt(1), U>>>>) }
-AU == {None, VInt(1), VFlt(1, 1), VInt(2), VStr("ab"), VNaN(1), VNaN(2)}
-YU == {U, V, VInt(1)}
+\* (labels are strings of the ordered universe: an unpivoted table shows them in its y column and may be sorted by it)
+AU == {None, VInt(1), VFlt(1, 1), VInt(2), VNaN(1)}
+YU == {U, V, W}
 \* (the big universe is spelled out inside the IF: TLC evaluates every zero-arity definition when it starts)
 Tables == IF Scope = "quick" THEN QuickTables ELSE IF Scope = "wide" THEN WideTables
-          ELSE {Tab(r) : r \in UNION {[1..n -> AU \X YU] : n \in 2..4}}
-Keys2 == IF Scope = "quick" THEN {<<"a", "y">>} ELSE {<<"a", "y">>, <<"y", "a">>, <<"y">>, <<"p", "a">>}
+          ELSE {Tab(r) : r \in [1..3 -> AU \X YU]}
+Keys2 == IF Scope = "quick" THEN {<<"a", "y">>} ELSE IF Scope = "wide" THEN {<<"a", "y">>, <<"y", "a">>, <<"y">>, <<"p", "a">>}
+         ELSE {<<"a", "y">>, <<"y">>}
 NameU == IF Scope = "quick" THEN {<<"a">>, <<"a", "y">>, <<"y">>} ELSE {<<"a">>, <<"a", "y">>, <<"y">>, <<"y", "a">>, <<"p">>}
 Labels(T) == LET pv == CPivot(T, <<"a">>, "y", "p", "last") IN SubSeq(pv.cols, 2, Len(pv.cols))
 YDicts(T) == LET ls == Labels(T) IN
